@@ -5,8 +5,14 @@ C01 — a distributed run returns exactly the values sequential evaluation would
 from the values computed so far); `f` (what a task body computes from its argument values) is
 uninterpreted. The cluster, the placement (oracle), and the order/batching of events are
 universally quantified in `Reachable`.
+
+"Every dataset the caller asked for is delivered" needs the run to return. Before the repair of controller/notify.py
+(fixed finding C01-last-output-overtakes: completion inferred from the LAST output's notice) a run under any-order
+delivery could spin or exit its loop early; the theorems `c01_return_complete` and `c01_run_delivers` below state, for
+ANY order and batching of events, what then could only be said under FIFO delivery.
 -/
 import EkwVerif.Lemmas.CtrlFinal
+import EkwVerif.Lemmas.SchedIdle
 
 namespace EkwVerif.Ctrl
 
@@ -45,5 +51,54 @@ theorem c01_independent (f : Sem) (j : Job) (cl cl' : Cluster) (wf : WF j cl) (w
   rw [hv, hv']
   rw [hd] at hd'
   exact hd'
+
+/-- **When `run` returns nothing was skipped** (any event order): every task of the job ran, exactly once, its completion
+was seen by the controller, and every requested dataset has been delivered with the value of sequential evaluation. -/
+theorem c01_return_complete (f : Sem) (j : Job) (cl : Cluster) (wf : WF j cl) (s : Sys) (hr : Reachable f j cl s)
+    (hfin : s.phase = .finished) :
+    (∀ t, t < j.tasks.length → s.env.ran t = true ∧ s.env.dispatchedE t = 1 ∧ s.ctl.doneC t = true) ∧
+    (∀ ds, ds ∈ j.ext → ∃ v, s.ctl.outputs ds = some v ∧ den f j ds = some v) := by
+  refine ⟨?_, c01_outputs_sequential f j cl wf s hr hfin⟩
+  intro t ht
+  have h := invAll_reachable f j cl wf s hr
+  have hd := sL_done f j cl wf s hr hfin t ht
+  have hran := h.h2.done_ran t hd
+  exact ⟨hran, by rw [h.h1.disp_eq]; exact (h.h2.ran_disp t hran).1, hd⟩
+
+/-- **The run delivers** (any event order, every feasible cluster, every admissible choice of the heuristics; extended
+system with the scheduler's bookkeeping). At every moment of a run: the controller has neither crashed nor raised, its
+loop has made at most `roundBound j` iterations (it cannot spin), whenever it blocks in `recv_events` an event is on its
+way or an executor can move (it cannot wait for nothing; every executor step consumes a queued task or an outstanding
+transfer), and once the loop has exited every requested dataset has been delivered with the sequential value and every
+task ran exactly once. Executor fairness (an enabled executor step is eventually taken) is the only assumption left
+between this and "every run returns the requested outputs". -/
+theorem c01_run_delivers (f : Sem) (j : Job) (cl : Cluster) (cm : Comps) (wf : WF j cl) (wfc : WFC j cm)
+    (feas : Feasible j cl) (x : SysX) (hr : ReachableX f j cl cm x) :
+    x.sys.err = none ∧ x.sch.schErr = none ∧ x.sys.rounds ≤ roundBound j ∧
+    (x.sys.phase = .waiting → x.sys.env.pending ≠ [] ∨ ∃ es e', envStep f j x.sys.env es = some e') ∧
+    (x.sys.phase = .finished →
+      (∀ ds, ds ∈ j.ext → ∃ v, x.sys.ctl.outputs ds = some v ∧ den f j ds = some v) ∧
+      (∀ t, t < j.tasks.length → x.sys.env.ran t = true ∧ x.sys.env.dispatchedE t = 1 ∧ x.sys.ctl.doneC t = true)) := by
+  have hR := sL_reachableX_base f j cl cm x hr
+  have hX := invX_reachable f j cl cm wf wfc x hr
+  have hF := invF_reachable f j cl x.sys hR
+  have herr : x.sys.err = none := by
+    cases he : x.sys.err with
+    | none => rfl
+    | some e =>
+      have hm := hF.err_msg e he
+      simp only [crashMsgs, List.mem_cons, List.not_mem_nil, or_false] at hm
+      rcases hm with rfl | rfl | rfl | rfl | rfl | rfl
+      · exact absurd he hX.hA.h4.no_err_notfound
+      · exact absurd he hX.hA.h2.no_err_plan
+      · exact absurd he hX.hA.h1.no_double_add
+      · exact absurd he hX.hA.h4.no_err_pop
+      · exact absurd he hX.hA.h2.no_err_tracker
+      · exact absurd he hX.hA.h2.no_err_ongoing
+  refine ⟨herr, hX.hS.no_schErr, sB_rounds_bounded f j cl cm wf wfc feas x hr,
+    fun hw => sI_no_idle_wait f j cl cm wf wfc feas x hr hw, ?_⟩
+  intro hfin
+  have := c01_return_complete f j cl wf x.sys hR hfin
+  exact ⟨this.2, this.1⟩
 
 end EkwVerif.Ctrl
